@@ -191,3 +191,42 @@ func (e *Env) FinishRun() bool {
 	}
 	return true
 }
+
+// PriorSession runs one complete earlier session on the peer (Established,
+// then ended by the remote with FIN, RST or Cease - none of which damps), so
+// that what follows happens on a re-used outbound FSM object / a second
+// inbound FSM rather than on a pristine peer. It reports whether it ran.
+func (s *Std1) PriorSession(w *World) bool {
+	if !w.Chance(1, 4, "prior-session") {
+		return false
+	}
+	e, p := s.E, s.P
+	c := e.OpenConn(p, s.Dir, time.Minute)
+	if c == nil {
+		return false
+	}
+	if _, err := e.Advance(p, c, StEstablished, time.Minute); err != nil {
+		w.Probe("prior-session-failed")
+		if !c.RemoteClosed() {
+			c.FIN()
+		}
+		w.Quiesce()
+		return false
+	}
+	c.SendSeg(MkFrame(MsgUpdate, []byte{0x50, 0x52, 0x49, 0x4f}))
+	w.Quiesce()
+	switch w.Draw(3, "prior-end") {
+	case 0:
+		c.FIN()
+	case 1:
+		c.RST()
+	default:
+		c.Deliver(MkNotif(6, 4, nil))
+		w.Quiesce()
+		c.FIN()
+	}
+	w.WaitUntil("prior.down", time.Minute, p.Plug.IsDown)
+	w.Quiesce()
+	w.Probe("prior-session")
+	return true
+}
